@@ -201,3 +201,15 @@ def c17_stages(tier, rng):
                   lambda r: len(r["Ds"]) >= 2, extrarun.init),
             Stage("beyond_dataset_views", "Trace_Extras", extrarun.run_dviews, lambda: dviews_cases(tier, rng),
                   lambda r: len(r["D"]) >= 2, extrarun.init)]
+
+
+def factory_cases(tier, rng):
+    from . import algo_common as ac
+    schemes = [list(s) for s in (ac.P_UNI1, ac.P_IND1, ac.P_PSE1, ac.P_UNI5, ac.P_PSE5, ac.P_EXT)]
+    names = ["EXACT", "PARCONS", "BIOCONSERT", "BIOCO", "KWIKSORTRANDOM", "PICKAPERM", "BORDACOUNT", "COPELANDMETHOD"]
+    return [{"name": n, "none": k, "schemes": schemes} for n in names for k in (0, 1)]
+
+
+def c14_stages(tier, rng):
+    return [Stage("beyond_algorithm_factory", "Trace_Extras", extrarun.run_factory, lambda: factory_cases(tier, rng),
+                  lambda r: True, extrarun.init)]
